@@ -16,7 +16,8 @@ import teneva
 
 from . import tlc
 
-BOXES = [(-1., 1.), (0., 1.), (0., 2.), (-3., 5.), (0.25, 0.75), (1000., 1001.), (-1.0e6 - 1., -1.0e6 + 3.), (2.0 ** -20, 2.0 ** -19), (-7., 0.)]
+BOXES = [(-1., 1.), (0., 1.), (0., 2.), (-3., 5.), (0.25, 0.75), (1000., 1001.), (-1.0e6 - 1., -1.0e6 + 3.), (2.0 ** -20, 2.0 ** -19), (-7., 0.),
+         (-0.4, 2.0), (7.53, 8.21), (9.32, 14.99), (0.1, 0.3), (-1.7, -0.2)]      # incl. bounds that are not exactly representable
 
 
 def ulp_close(x, y, a, b, k=4):
@@ -39,7 +40,7 @@ def run(ctx):
             u = Fraction(c['u'][0], c['u'][1])
             idxs = set(e['idx'])
             on_node = (u * (n - 1)).denominator == 1 and 0 <= u <= 1
-            for (a, b) in (BOXES if not quick else [BOXES[j] for j in rng.choice(len(BOXES), size=4, replace=False)]):
+            for (a, b) in (BOXES if not quick else [BOXES[j] for j in rng.choice(len(BOXES), size=6, replace=False)]):
                 for kind in ('uni', 'cheb'):
                     if kind == 'uni':
                         x = a + float(u) * (b - a)
